@@ -77,6 +77,7 @@ func TestVerifC09(t *testing.T) {
 			id, tok, user string
 			fields        [][2]string
 			ws            bool
+			userinfo      bool
 		}
 		var reqs []creq
 		for i := 0; i < n; i++ {
@@ -100,6 +101,11 @@ func TestVerifC09(t *testing.T) {
 			var raw bytes.Buffer
 			if c.ws {
 				body := "ws://anything.invalid/ws?tok=" + c.tok
+				if i%2 == 1 {
+					// credentials inside the target URL (rejected by the websocket dialer as malformed)
+					c.userinfo = true
+					body = []string{"ws://mallory:s3cret@anything.invalid/ws?tok=", "wss://mallory@anything.invalid/ws?tok=", "ws://:pw@anything.invalid/ws?tok="}[(i/6)%3] + c.tok
+				}
 				fmt.Fprintf(&raw, "POST /verifshim/open HTTP/1.1\r\nHost: verif.example\r\n")
 				for _, f := range c.fields {
 					fmt.Fprintf(&raw, "%s: %s\r\n", f[0], f[1])
@@ -133,7 +139,7 @@ func TestVerifC09(t *testing.T) {
 		sn.mu.Lock()
 		for _, c := range reqs {
 			h, ok := sn.reqs[c.tok]
-			out.emit(map[string]interface{}{"kind": "c09", "fwd": fwd, "strip": strip, "shim": shim, "sessions": sess, "websocket": c.ws,
+			out.emit(map[string]interface{}{"kind": "c09", "fwd": fwd, "strip": strip, "shim": shim, "sessions": sess, "websocket": c.ws, "userinfo": c.userinfo,
 				"user": c.user, "fields": c.fields, "reached_backend": ok,
 				"uid": h.Values("X-Inverting-Proxy-User-ID"), "auth": h.Values("Authorization"), "other": h.Values("X-Other")})
 		}
